@@ -16,19 +16,57 @@ from .rustsrc import Source, Lost, code_mask
 # ----------------------------------------------------------------------------------------
 # Desugaring rules.  (regex, replacement, id).  Applied to the text of each extracted
 # function.  They are purely local and are listed in DESIGN.md section 3.3.
+def _bytes_lit(s):
+    """b"..." body -> Rust array literal of u8 (handles the escapes used in the sources)."""
+    out = []
+    i = 0
+    while i < len(s):
+        c = s[i]
+        if c == '\\':
+            n = s[i + 1]
+            m = {'n': 10, 't': 9, 'r': 13, '\\': 92, '"': 34, "'": 39, '0': 0}
+            if n == 'x':
+                out.append(int(s[i + 2:i + 4], 16))
+                i += 4
+                continue
+            out.append(m[n])
+            i += 2
+            continue
+        out.append(ord(c))
+        i += 1
+    return '&[' + ', '.join('%du8' % b for b in out) + ']'
+
+
+def _recv(m, g=1):
+    r = m.group(g)
+    return ('&' + r) if '[' in r and not r.startswith('&') else r
+
+
+_R = r'((?:\w+(?:\.\w+)*)(?:\[[^\]\n]*\])?)'   # receiver: a.b.c or a.b[expr]
+
 RULES = [
     # R2: position of first (non-)whitespace byte
-    (r'(\w+(?:\.\w+)*)\s*\.iter\(\)\s*\.position\(\s*u8::is_ascii_whitespace\s*\)', r'vx_position_ws(\1)', 'R2'),
-    (r'(\w+(?:\.\w+)*)\s*\.iter\(\)\s*\.position\(\s*\|c\|\s*!c\.is_ascii_whitespace\(\)\s*\)', r'vx_position_non_ws(\1)', 'R2'),
+    (_R + r'\s*\.iter\(\)\s*\.position\(\s*u8::is_ascii_whitespace\s*\)', lambda m: 'vx_position_ws(%s)' % _recv(m), 'R2'),
+    (_R + r'\s*\.iter\(\)\s*\.position\(\s*\|c\|\s*!c\.is_ascii_whitespace\(\)\s*\)', lambda m: 'vx_position_non_ws(%s)' % _recv(m), 'R2'),
     # R1: position of a given byte
-    (r"(\w+(?:\.\w+)*)\s*\.iter\(\)\s*\.position\(\s*\|c\|\s*\*c\s*==\s*(b'[^']+')\s*\)", r'vx_position_eq(\1, \2)', 'R1'),
-    (r"(\w+(?:\.\w+)*)\s*\.iter\(\)\s*\.position\(\s*\|c\|\s*c\s*==\s*&(\w+)\s*\)", r'vx_position_eq(\1, \2)', 'R1'),
+    (_R + r"\s*\.iter\(\)\s*\.position\(\s*\|c\|\s*\*c\s*==\s*(b'[^']+')\s*\)", lambda m: 'vx_position_eq(%s, %s)' % (_recv(m), m.group(2)), 'R1'),
+    (_R + r"\s*\.iter\(\)\s*\.position\(\s*\|c\|\s*c\s*==\s*&(\w+)\s*\)", lambda m: 'vx_position_eq(%s, %s)' % (_recv(m), m.group(2)), 'R1'),
     # R3: count of a given byte
-    (r"(\w+(?:\.\w+)*)\s*\.iter\(\)\s*\.filter\(\s*\|c\|\s*\*\*c\s*==\s*(b'(?:\\.|[^'])+')\s*\)\s*\.count\(\)", r'vx_count_eq(\1, \2)', 'R3'),
+    (_R + r"\s*\.iter\(\)\s*\.filter\(\s*\|c\|\s*\*\*c\s*==\s*(b'(?:\\.|[^'])+')\s*\)\s*\.count\(\)", lambda m: 'vx_count_eq(%s, %s)' % (_recv(m), m.group(2)), 'R3'),
     # R13: all whitespace
-    (r'(\w+(?:\.\w+)*)\s*\.iter\(\)\s*\.all\(\s*\|c\|\s*c\.is_ascii_whitespace\(\)\s*\)', r'vx_all_ws(\1)', 'R13'),
-    # R10: debug_assert -> assert (an obligation)
-    (r'\bdebug_assert!\((.*)\);', r'assert(\1);', 'R10'),
+    (_R + r'\s*\.iter\(\)\s*\.all\(\s*\|c\|\s*c\.is_ascii_whitespace\(\)\s*\)', lambda m: 'vx_all_ws(%s)' % _recv(m), 'R13'),
+    # R4: starts_with / ends_with against a byte-string literal
+    (_R + r'\s*\.starts_with\(b"((?:\\.|[^"\\])*)"\)', lambda m: 'vx_starts_with(%s, %s)' % (_recv(m), _bytes_lit(m.group(2))), 'R4'),
+    (_R + r'\s*\.ends_with\(b"((?:\\.|[^"\\])*)"\)', lambda m: 'vx_ends_with(%s, %s)' % (_recv(m), _bytes_lit(m.group(2))), 'R4'),
+    # R14: slice == / != byte-string literal
+    (r'(\w+)\s*==\s*b"((?:\\.|[^"\\])*)"', lambda m: 'vx_eq(%s, %s)' % (m.group(1), _bytes_lit(m.group(2))), 'R14'),
+    (r'(\w+)\s*!=\s*b"((?:\\.|[^"\\])*)"', lambda m: '!vx_eq(%s, %s)' % (m.group(1), _bytes_lit(m.group(2))), 'R14'),
+    # R5: `let v = E.ok_or_else(|| ERR)?;`
+    (r'let (\w+) = ([^;]*?)\s*\.ok_or_else\(\|\|\s*([^;]*?)\)\?;', lambda m: 'let %s = match %s { Some(vx_v) => vx_v, None => return Err(%s) };' % (m.group(1), m.group(2), m.group(3)), 'R5'),
+    # R7: `R.map(|res| (self.line, res))` on a Result
+    (r'return ([^;]*?)\.map\(\|res\| \(self\.line, res\)\);', lambda m: 'return match %s { Ok(res) => Ok((self.line, res)), Err(vx_e) => Err(vx_e) };' % m.group(1), 'R7'),
+    # R10: debug_assert!(E) -> vx_debug_assert(E): E is evaluated in exec mode (as a debug build does) and must hold
+    (r'\bdebug_assert!\((.*)\);', lambda m: 'vx_debug_assert(%s);' % m.group(1), 'R10'),
 ]
 
 
@@ -239,6 +277,12 @@ def build_unit(unit, repo_dir, negctl=False):
             if fs.impl is not None:
                 parts.append(unit.wrap[fs.impl] + ' {\n')
             cur_impl = fs.impl
+        if negctl:
+            # the planted falsehoods go into an uncalled *copy* `<fn>__negctl`, so that a callee's
+            # `ensures false` cannot poison (and thereby mask) its callers
+            plain, _ = annotate_fn(fs, real, negctl=False)
+            parts.append(plain + '\n\n')
+            txt = re.sub(r'\bfn\s+%s\b' % re.escape(fs.name), 'fn %s__negctl' % fs.name, txt, count=1)
         start_line = ''.join(parts).count('\n') + 1
         parts.append(txt + '\n\n')
         end_line = ''.join(parts).count('\n')
@@ -252,7 +296,7 @@ def build_unit(unit, repo_dir, negctl=False):
 
 
 SEMANTIC = (
-    'postcondition not satisfied', 'precondition not met', 'invariant not satisfied',
+    'postcondition not satisfied', 'precondition not met', 'precondition not satisfied', 'invariant not satisfied',
     'possible arithmetic underflow/overflow', 'assertion failed', 'possible division by zero',
     'decreases not satisfied', 'loop invariant not satisfied', 'assertion not satisfied',
     'possible bit shift underflow/overflow', 'unreachable', 'invariant not satisfied before loop',
@@ -312,6 +356,8 @@ def interpret(unit, meta, gen_text, res):
         where = ''
         tags = []
         for s in d.get('spans', []):
+            if s['line_end'] - s['line_start'] > 2:
+                continue
             for ln in range(s['line_start'], s['line_end'] + 1):
                 if 0 < ln <= len(lines) and TAG in lines[ln - 1]:
                     tags.append(lines[ln - 1].split(TAG, 1)[1].strip())
